@@ -1,7 +1,7 @@
 #!/bin/sh
-# usage: showgoal.sh file.v LINE  -- prints the goal just before LINE (1-based) of the file
-f="$1"; n="$2"; d=$(dirname "$f"); b=$(basename "$f" .v)
-tmp="$d/Zz_show_$b.v"
-head -n $((n-1)) "$f" > "$tmp"; echo "Show. Abort." >> "$tmp"
-timeout 300 coqc -Q /verif/coq/theories PW "$tmp" 2>&1 | tail -${3:-40}
-rm -f "$tmp" "$d/Zz_show_$b.vo" "$d/Zz_show_$b.glob" "$d/.Zz_show_$b.aux" "$d/Zz_show_$b.vok" "$d/Zz_show_$b.vos"
+# usage: showgoal.sh file.v LINE [TAIL] -- prints the goal just before LINE (1-based) of the file
+f="$1"; n="$2"; b=$(basename "$f" .v)
+d=$(mktemp -d /tmp/showgoal_XXXXXX)
+head -n $((n-1)) "$f" > "$d/Zz_show_$b.v"; echo "Show. Abort." >> "$d/Zz_show_$b.v"
+(cd "$d" && timeout 300 coqc -noglob -Q /verif/coq/theories PW "Zz_show_$b.v" 2>&1 | tail -${3:-40})
+rm -rf "$d"
